@@ -74,7 +74,7 @@ def run(ctx):
     cres = []
     cws = corpus_inputs(ctx)
     if cws:
-        cres = L.evaluate(bindir, exe, cws, timeout=600)
+        cres = L.evaluate(bindir, exe, cws, timeout=600, with_text=False)
         os.environ.pop("INCLUDE_DIR", None)
     found = False
     n_pos = n_ans = n_refs = n_ops = skipped = 0
